@@ -13,7 +13,7 @@ for d in sorted(glob.glob(os.path.join(ROOT, "seeded", "*"))):
 def run(s):
     name, prop, patch = s
     cmd = ["/venv/bin/python", os.path.join(ROOT, "tools", "mutate.py"), "--name", "seed_" + name, "--props", prop, "--patch", patch]
-    out = subprocess.run(cmd, capture_output=True, text=True, env=dict(os.environ, VERIF_NPROC="6"), cwd=ROOT).stdout
+    out = subprocess.run(cmd, capture_output=True, text=True, env=dict(os.environ, VERIF_NPROC="4"), cwd=ROOT).stdout
     res = [l for l in out.splitlines() if l.startswith(("RESULT", "MUTATE-ERROR"))]
     first = [l.strip()[:170] for l in out.splitlines() if l.startswith("      ")][:1]
     return name, res, first
